@@ -81,8 +81,8 @@ impl Engine for ChanSim {
     }
     fn budget(_prop: &str, tier: Tier) -> (u64, u64) {
         match tier {
-            Tier::Quick => (3_000_000, 40),
-            Tier::Thorough => (100_000_000, 600),
+            Tier::Quick => (20_000_000, 40),
+            Tier::Thorough => (400_000_000, 600),
         }
     }
     fn gen_config(prop: &str, tier: Tier, rng: &mut Rng) -> Config {
